@@ -123,6 +123,7 @@ _TOK = re.compile(r'''
   | (?P<comment>;.*$)
   | (?P<local>%"(?:[^"\\]|\\.)*"|%[-a-zA-Z$._0-9]+)
   | (?P<glob>@"(?:[^"\\]|\\.)*"|@[-a-zA-Z$._0-9]+)
+  | (?P<comdat>\$"(?:[^"\\]|\\.)*"|\$[-a-zA-Z$._0-9]+)
   | (?P<meta>![-a-zA-Z$._0-9]*)
   | (?P<attr>\#\d+)
   | (?P<cstr>c"(?:[^"\\]|\\.)*")
@@ -835,7 +836,7 @@ def _consistent(literals):
             one = {}
             for x, i in items:
                 for y, j in items:
-                    if i != j and not (x.is_Number and y.is_Number):
+                    if i != j:
                         if _diff(x, y) == 1:
                             one[(i, j)] = True          # node j = node i + 1
             if one:
@@ -1409,6 +1410,7 @@ class Module:
         self.layout = Layout(self.named)
         self.globals = {}      # name -> (is_constant, type, init value AST | None)
         self.functions = {}
+        self.unparsed = []     # (header, reason) of defined functions whose header could not be parsed
         self.declared = set()
         self._parse(text)
 
@@ -1452,8 +1454,11 @@ class Module:
                     body.append(lines[i])
                     i += 1
                 i += 1
-                f = Function(self, l, body)
-                self.functions[f.name] = f
+                try:
+                    f = Function(self, l, body)
+                    self.functions[f.name] = f
+                except Undecided as e:
+                    self.unparsed.append((l[:120], str(e)))
                 continue
 
     def _parse_global(self, l):
@@ -1570,6 +1575,9 @@ class Function:
         """symbolic summary; options:
              unroll=True     execute loops symbolically (a loop whose exit tests become constants is thereby unrolled;
                              more than max_unroll=64 visits of a block on one path => Undecided); False: any back edge => Undecided
+             pointers=None   {input location: (global name, byte offset)}: a pointer-typed input that is known to point into a
+                             global, e.g. {'a[0]': ('_ZTV...', 16)} declares the dynamic type of *a; virtual calls through it then
+                             resolve to the functions listed in the (constant) vtable and are inlined like direct calls
              rounding=False  multiply every rounded fp operation by (1 + _d<k>)
              nonneg=()       names of input symbols (or a predicate on the name) known to be >= 0
              fits=None       callable(term, from_bits, to_bits, signed) -> reason string | None: accept a narrowing
@@ -1766,6 +1774,7 @@ class Interp:
         self.input_kinds = {}
         self.npaths = 0
         self.argtypes = {}      # base -> [(offset, scalar type)] of the pointee of a pointer argument
+        self.pointers = dict(opts.get('pointers') or {})     # input location -> (global name, byte offset)
         self.unroll = opts.get('unroll', True)
         self.max_unroll = opts.get('max_unroll', MAX_UNROLL)
 
@@ -1774,6 +1783,9 @@ class Interp:
         """value of an input location / argument of scalar type ty"""
         ty = self.L.resolve(ty)
         if ty[0] == 'ptr':
+            if name in self.pointers:
+                g, off = self.pointers[name]
+                return PtrV(('global', g.lstrip('@')), off)
             return PtrV(('sym', name), 0)
         k = (ty[0], ty[1])
         prev = self.input_kinds.setdefault(name, k)
@@ -2819,6 +2831,15 @@ class Interp:
             return ('ret', None if a['v'] is None else V(a['v']))
         if op == 'call':
             cal = a['callee']
+            if cal[0] == 'cexpr' and cal[1] in ('bitcast', 'addrspacecast') and cal[2][1][0] == 'glob':
+                cal = cal[2][1]
+            if cal[0] == 'loc':
+                # a function pointer loaded from a constant table (vtable of an object whose dynamic type was declared with
+                # summary(pointers=...)) resolves to a defined function
+                fv = env.get(cal[1])
+                if fv is not None and fv.kind == 'p' and fv.base[0] == 'global' and fv.off == 0 and \
+                        (fv.base[1] in self.mod.functions or fv.base[1] in self.mod.declared):
+                    cal = ('glob', '@' + fv.base[1])
             if cal[0] != 'glob':
                 raise Undecided('indirect call in %s' % fn.name)
             name = cal[1][1:].strip('"')
@@ -2929,6 +2950,11 @@ class Summary:
                             keep.append((o2, s2, w2))
                         elif o <= o2 and o2 + s2 <= o + s:
                             continue      # fully overwritten
+                        elif isinstance(w2, tuple) and w2[0] in ('zero', 'copy'):
+                            # a later store into the middle of a memset / memcpy region: keep the uncovered ends
+                            for (lo, hi) in ((o2, min(o, o2 + s2)), (max(o + s, o2), o2 + s2)):
+                                if hi > lo:
+                                    keep.append((lo, hi - lo, w2 if w2[0] == 'zero' else ('copy', w2[1], w2[2] + (lo - o2), w2[3])))
                         else:
                             raise Undecided('partially overwritten output at %s[%s]' % (bn, o2))
                     else:
@@ -3012,8 +3038,21 @@ class Summary:
         return sorted(self.outs())
 
     def values(self, slot):
-        """[(guard, term)] of a slot over all paths; KeyError if no path writes it"""
-        return self.outs()[slot]
+        """[(guard, term)] of a slot over all paths; KeyError if no path writes it.  A location inside a zero-filled
+        region (`out[16..+24]`, from memset / value-initialisation) reads as 0."""
+        o = self.outs()
+        if slot in o:
+            return o[slot]
+        m = re.match(r'^(.*)\[(-?\d+)\]$', slot)
+        if m:
+            res = []
+            for k, vs in o.items():
+                z = re.match(r'^(.*)\[(-?\d+)\.\.\+(\d+)\]$', k)
+                if z and z.group(1) == m.group(1) and int(z.group(2)) <= int(m.group(2)) < int(z.group(2)) + int(z.group(3)):
+                    res += [(g, t) for g, t in vs if t == 0]
+            if res:
+                return res
+        raise KeyError(slot)
 
     def value(self, slot='ret'):
         """the term of a slot that has the same term on every path (Sel nodes may remain)"""
